@@ -25,7 +25,7 @@ def _no_resource(core):
 
 
 @rigged
-def start_apps(src, n=2, procs=2, apps=1, lean=True, dist=('ALL_INSTANCES',), auto=False):
+def start_apps(src, n=2, procs=2, apps=1, lean=True, dist=('ALL_INSTANCES',), auto=False, late=False):
     """H04b: real Starter/ApplicationStartJobs/ProcessStartCommand starting 1..2 applications; every request recorded
     at the rpc boundary must target an instance that is eligible *at that moment*, counting every start already
     requested (by any application) in the node load."""
@@ -59,6 +59,13 @@ def start_apps(src, n=2, procs=2, apps=1, lean=True, dist=('ALL_INSTANCES',), au
             if lean and src.pick_flag(f'program_rule_to_be_ignored{a}'):
                 adapter.set_rules(plist[0][0].rules, identifiers=[ids[n - 1]])
         targets.append((application, distribution, plist))
+    late_proc = None
+    if late:
+        # a program outside the start sequence, with its own (restrictive) identifiers rule, started by a separate
+        # request while the start of its non-distributed application is in progress (ApplicationStartJobs.on_command_added)
+        for ident in ids:
+            late_proc = core.add_process(ident, 'app0', 'late', ProcessStates.STOPPED)
+        adapter.set_rules(late_proc.rules, start_sequence=0, expected_load=0, identifiers=[ids[n - 1]])
     core.finalize_rules()
     # one of the processes may already be running somewhere / already being started: it must not be requested again
     already = src.pick('already', ['no', 'running'])
@@ -78,6 +85,13 @@ def start_apps(src, n=2, procs=2, apps=1, lean=True, dist=('ALL_INSTANCES',), au
         core.starter.start_applications()
     else:
         core.starter.start_application(StartingStrategies[strat], targets[0][0])
+    if late_proc is not None and core.starter.in_progress():
+        core.starter.start_process(StartingStrategies[strat], late_proc)
+        core.late_namespec = late_proc.namespec
+        # where the command added to the job in progress has been planned (it is requested when its turn comes)
+        core.late_targets = [c.identifier for job in core.starter.current_jobs.values()
+                             for cmds in list(job.planned_jobs.values()) + [job.current_jobs]
+                             for c in cmds if c.process is late_proc and c.identifier]
     reqs = _requests(core)
     nores = _no_resource(core)
     src.reach('requested' if reqs else 'nothing-requested')
@@ -87,6 +101,8 @@ def start_apps(src, n=2, procs=2, apps=1, lean=True, dist=('ALL_INSTANCES',), au
     for identifier, namespec in reqs:
         src.check('one-request-per-process', namespec not in seen, sig=namespec)
         seen.add(namespec)
+        if namespec == getattr(core, 'late_namespec', None):
+            continue            # judged by the C14 harness
         i = ids.index(identifier)
         group, name = namespec.split(':')
         application, distribution, plist = next(t for t in targets if t[0].application_name == group)
